@@ -255,6 +255,20 @@ impl<Key> CacheWeight<Key>
         false
     }
 
+    /// Deletes the `key_id` only if `should_delete` holds for the key it belongs to.
+    /// The condition is evaluated while the entry of the `key_id` is held, so the `key_id` can not be deleted by anyone else in between.
+    pub(crate) fn delete_if<Condition, DeleteHook>(&self, key_id: &KeyId, should_delete: &Condition, delete_hook: &DeleteHook)
+        where Condition: Fn(&Key) -> bool,
+              DeleteHook: Fn(Key) {
+        if let Some(weight_by_key_hash) = self.key_weights.remove_if(key_id, |_, weighted_key| should_delete(&weighted_key.key)) {
+            let mut guard = self.weight_used.write();
+            *guard -= weight_by_key_hash.1.weight;
+            delete_hook(weight_by_key_hash.1.key);
+
+            self.stats_counter.remove_weight(weight_by_key_hash.1.weight as u64);
+        }
+    }
+
     pub(crate) fn delete<DeleteHook>(&self, key_id: &KeyId, delete_hook: &DeleteHook)
         where DeleteHook: Fn(Key) {
         #[cfg(feature = "cached_verif")]
